@@ -230,10 +230,10 @@ Proof. by rewrite size_cat /=; lia. Qed.
    takes t_mat.size(0), the first BATCH dimension, for the number of probes). *)
 Theorem root_forward_shape_spec (nprobe : nat) (batch : seq nat) (n m : nat) :
   (0 < nprobe)%N -> (1 < m)%N -> (1 < n)%N ->
-  (root_forward_shape (lanczos_lead nprobe batch) n m == lanczos_lead nprobe batch ++ [:: n; m])
+  (root_forward_shape_pinned (lanczos_lead nprobe batch) n m == lanczos_lead nprobe batch ++ [:: n; m])
   = ~~ [&& nprobe == 1%N, (1 < size batch)%N & head 0%N batch == 1%N].
 Proof.
-move=> np0 m1 n1; rewrite /root_forward_shape /lanczos_lead.
+move=> np0 m1 n1; rewrite /root_forward_shape_pinned /lanczos_lead.
 have [E1|N1] := eqVneq nprobe 1%N.
   case: batch => [|b1 [|b2 r]].
   - rewrite /=; have /negbTE-> : m != 1%N by lia.
@@ -250,10 +250,10 @@ Qed.
 
 Theorem diag_forward_shape_spec (batch : seq nat) (n m : nat) :
   (1 < m)%N -> (1 < n)%N ->
-  (diag_forward_shape batch n m == (batch ++ [:: m], batch ++ [:: n; m]))
+  (diag_forward_shape_pinned batch n m == (batch ++ [:: m], batch ++ [:: n; m]))
   = ~~ ((1 < size batch)%N && (head 0%N batch == 1%N)).
 Proof.
-move=> m1 n1; rewrite /diag_forward_shape.
+move=> m1 n1; rewrite /diag_forward_shape_pinned.
 case: batch => [|b1 [|b2 r]].
 - rewrite /=.
   have /negbTE-> : m != 1%N by lia.
@@ -267,9 +267,9 @@ Qed.
 
 Theorem postprocess_shape_spec (batch : seq nat) (n k : nat) :
   (1 < n)%N ->
-  (postprocess_shape batch n k == batch ++ [:: n; k]) = ~~ ((0 < size batch)%N && (head 0%N batch == 1%N)).
+  (postprocess_shape_pinned batch n k == batch ++ [:: n; k]) = ~~ ((0 < size batch)%N && (head 0%N batch == 1%N)).
 Proof.
-move=> n1; rewrite /postprocess_shape.
+move=> n1; rewrite /postprocess_shape_pinned.
 case: batch => [|b1 r] /=.
   have /negbTE-> : n != 1%N by lia.
   by rewrite eqxx.
@@ -277,6 +277,16 @@ have [->|Nb] := eqVneq b1 1%N; first by rewrite /= cons_neq_self.
 by rewrite /= ?(negbTE Nb) ?eqxx.
 Qed.
 
+
+(* after fix C09-leading-singleton-batch all three hand back the specified shapes, for every batch shape *)
+Theorem fixed_shapes_spec (nprobe : nat) (batch : seq nat) (n m : nat) :
+  [/\ root_forward_shape true nprobe (lanczos_lead nprobe batch) n m = lanczos_lead nprobe batch ++ [:: n; m],
+      diag_forward_shape true batch n m = (batch ++ [:: m], batch ++ [:: n; m]) &
+      postprocess_shape true batch n m = batch ++ [:: n; m]].
+Proof.
+rewrite /root_forward_shape /diag_forward_shape /postprocess_shape /lanczos_lead; split=> //.
+by case: (nprobe == 1%N).
+Qed.
 
 (* root_inv_decomposition's check of initial_vectors.shape lets through exactly ( *batch, n, k ) and, for an operator
    without batch dimensions, the 1-D shape (n) *)
